@@ -1,0 +1,28 @@
+// Copyright (C) 2024 Storj Labs, Inc.
+// See LICENSE for copying information.
+
+//go:build verif
+// +build verif
+
+package drpcdebug
+
+import "sync/atomic"
+
+var pointHook atomic.Value // of func(string)
+
+// SetPointHook installs the function called at every scheduling point. A nil
+// function removes the hook.
+func SetPointHook(f func(name string)) {
+	if f == nil {
+		f = func(string) {}
+	}
+	pointHook.Store(f)
+}
+
+// Point marks a scheduling point for verification harnesses. With the verif
+// tag it calls the installed hook, which may park the calling goroutine.
+func Point(name string) {
+	if f, _ := pointHook.Load().(func(string)); f != nil {
+		f(name)
+	}
+}
